@@ -250,8 +250,10 @@ func (d *vfC10DS) gate(apply func() error) error {
 	return err
 }
 
-func (d *vfC10DS) Get(ctx context.Context, k datastore.Key) ([]byte, error) { return d.inner.Get(ctx, k) }
-func (d *vfC10DS) Has(ctx context.Context, k datastore.Key) (bool, error)   { return d.inner.Has(ctx, k) }
+func (d *vfC10DS) Get(ctx context.Context, k datastore.Key) ([]byte, error) {
+	return d.inner.Get(ctx, k)
+}
+func (d *vfC10DS) Has(ctx context.Context, k datastore.Key) (bool, error) { return d.inner.Has(ctx, k) }
 func (d *vfC10DS) GetSize(ctx context.Context, k datastore.Key) (int, error) {
 	return d.inner.GetSize(ctx, k)
 }
@@ -265,7 +267,7 @@ func (d *vfC10DS) Delete(ctx context.Context, k datastore.Key) error {
 	return d.gate(func() error { return d.inner.Delete(ctx, k) })
 }
 func (d *vfC10DS) Sync(ctx context.Context, k datastore.Key) error { return d.inner.Sync(ctx, k) }
-func (d *vfC10DS) Close() error                                     { return nil }
+func (d *vfC10DS) Close() error                                    { return nil }
 
 // ---------------------------------------------------------------------------------------------
 // model state / configuration
@@ -275,8 +277,8 @@ type vfC10State struct {
 	Disk  []string
 	Shown []string // what ListBlocked* returns (names by value)
 	Up    bool
-	Call [3]string // kind, rule, pc
-	Att  struct {
+	Call  [3]string // kind, rule, pc
+	Att   struct {
 		Dir, Peer, IP, Tpt string
 		K                  int
 	}
@@ -384,6 +386,7 @@ type vfC10CallRes struct {
 type vfC10Call struct {
 	kind, rule string
 	prev       string
+	prevAll    map[string]string
 	ctl        *vfC10Ctl
 	done       chan vfC10CallRes
 	form       string
@@ -497,7 +500,7 @@ func (s *vfC10Sys) doCall(g *conngater.BasicConnectionGater, kind, rule string, 
 		}
 		form := "cidr"
 		if !hip.Equal(n.IP) {
-			// a spelling with host bits set: keep them (the caller's value is the rule's key)
+			// a spelling with host bits set: hand it over as it is (the gater has to key the rule by the masked network)
 			switch variant % 3 {
 			case 0:
 				n, form = &net.IPNet{IP: hip.To4(), Mask: n.Mask}, "hostbits"
@@ -535,7 +538,9 @@ func (s *vfC10Sys) begin(kind, rule string) error {
 	form, fn := s.doCall(g, kind, rule, s.rnd.intn(6))
 	c := &vfC10Call{kind: kind, rule: rule, prev: s.must[rule], form: form,
 		ctl: &vfC10Ctl{reached: make(chan string), instr: make(chan string)}, done: make(chan vfC10CallRes, 1)}
+	c.prevAll = vfC10CopyMap(s.must)
 	s.must[rule] = "free"
+	s.aliases(rule, vfC10Opposite(kind)) // from the start of the call: it may take effect although it never returns
 	s.infl = c
 	s.ds.ctl.Store(c.ctl)
 	go func() {
@@ -571,12 +576,35 @@ func (s *vfC10Sys) settle(c *vfC10Call, r vfC10CallRes) {
 	case r.crashed || r.panicV != nil:
 		s.must[c.rule] = "free"
 	case r.err != nil:
-		s.must[c.rule] = c.prev // a call that returned an error obliges nothing new
+		s.must = c.prevAll // a call that returned an error obliges nothing new
 	case c.kind == "block":
 		s.must[c.rule] = "in"
 	default:
 		s.must[c.rule] = "out"
 	}
+}
+
+// aliases: whether a call also undoes another SPELLING of the same subnet is left open (an implementation
+// may or may not identify "127.0.0.3/31" with "127.0.0.2/31"): an opposite obligation of an alias lapses.
+func (s *vfC10Sys) aliases(rule, opposite string) {
+	canon := func(r string) string {
+		if c := s.conf.Canon[r]; c != "" {
+			return c
+		}
+		return r
+	}
+	for r, m := range s.must {
+		if r != rule && canon(r) == canon(rule) && m == opposite {
+			s.must[r] = "free"
+		}
+	}
+}
+
+func vfC10Opposite(kind string) string {
+	if kind == "block" {
+		return "out"
+	}
+	return "in"
 }
 
 func (s *vfC10Sys) waitDone(c *vfC10Call) (vfC10CallRes, error) {
@@ -908,8 +936,14 @@ func (s *vfC10Sys) checkUp(g *conngater.BasicConnectionGater, st vfC10State) {
 		if c := s.conf.Canon[r]; c != "" {
 			canon = c
 		}
+		anySpelling := listed[r] || listed[canon]
+		for y := range names {
+			if c := s.conf.Canon[y]; c == canon && listed[y] {
+				anySpelling = true
+			}
+		}
 		switch {
-		case s.must[r] == "in" && !listed[r] && !listed[canon]:
+		case s.must[r] == "in" && !anySpelling:
 			s.mismatch("acked-block-not-listed:"+vfC10Kind(r), fmt.Sprintf("Block(%s=%s) returned success, no later call on it, but ListBlocked* does not contain it%s", r, vfC10Rules[r].val, after), "listed", "absent")
 		case s.must[r] == "out" && listed[r]:
 			// which history class: is another spelling of the same subnet in force (written by a call that was never undone)?
